@@ -575,8 +575,19 @@ def hist_args():
 
 def start_proofs(ctx, props):
     """Re-check the Props file(s) in a worker thread while the correspondence runs; returns join() -> (ok, log)."""
+    import glob
     import threading
-    coqrun.ensure_built(targets=[f[:-2] + ".vo" for f in props] + [os.path.dirname(props[0]) + "/Corr.vo"])
+
+    def stale():
+        """some .vo of this property (or of the list libraries) is missing or older than its source"""
+        for d in ("C04", "C05", "Common"):
+            for v in glob.glob(os.path.join(coqrun.COQDIR, d, "*.v")):
+                vo = v + "o"
+                if not os.path.exists(vo) or os.path.getmtime(vo) < os.path.getmtime(v):
+                    return True
+        return False
+    if stale():     # otherwise do not queue behind somebody else's build: ctx.proofs (worker thread) builds under the lock anyway
+        coqrun.ensure_built(targets=[f[:-2] + ".vo" for f in props] + [os.path.dirname(props[0]) + "/Corr.vo"])
     res = {}
 
     def work():
